@@ -91,7 +91,7 @@ PayloadFor(target, topicLen, qos) == target - (2 + topicLen + (IF qos > 0 THEN 2
 Publishes ==
     UNION {{[t |-> "publish", dup |-> d, qos |-> q, retain |-> r, topic |-> S(tl, "a"), pkid |-> k, payload |-> S(pl, "b"), props |-> NoneR] :
                d \in Bools, r \in Bools, k \in Pkids,
-               pl \in {0, 1} \cup {PayloadFor(tg, tl, q) : tg \in {127, 128, 16383, 16384, 2097151, 2097152}}}
+               pl \in {0, 1} \cup {x \in {PayloadFor(tg, tl, q) : tg \in {127, 128, 16383, 16384, 2097151, 2097152}} : x >= 0}}
            : q \in {0, 1, 2}, tl \in {1, 128}}
 
 \* QoS 0 publishes carry no id: keep one representative id for them
@@ -127,7 +127,7 @@ Packets4 == PublishesN \cup Connects \cup ConnAcks \cup Acks \cup Subscribes \cu
 PropSets(K, V) == {[k \in ks |-> V[k]] : ks \in SUBSET K}
 
 PubPropVals == [pfi |-> 1, expiry |-> 5, alias |-> 3, response_topic |-> S(3, "a"), correlation |-> S(2, "b"),
-                user |-> << <<S(1, "a"), S(2, "b")>> >>, content_type |-> S(4, "a")]
+                user |-> << <<S(1, "a"), S(2, "b")>> >>, content_type |-> S(4, "a"), subid |-> <<5, 300, 1>>]
 PubProps == {NoneR} \cup (PropSets(DOMAIN PubPropVals, PubPropVals) \ {[k \in {} |-> 0]})
 Publishes5 ==
     {[t |-> "publish", dup |-> FALSE, qos |-> q, retain |-> r, topic |-> S(3, "a"), pkid |-> 9, payload |-> S(pl, "b"), props |-> pr] :
